@@ -10,7 +10,7 @@ def plans(tier):
             ("w321", pc.consts(S3, weight="W321", win=1, passive=False, mark=True, outcomes=("ok",))),
             ("w111-4", pc.consts(["round_robin"], N=4, N0=4, weight="W111", win=1, passive=False, mark=True, outcomes=("ok",))),
             ("lc-hold", pc.consts(["least_connections"], weight="W111", win=1, passive=False, mark=True, maxhold=2, outcomes=("ok", "hold"))),
-            ("admin", pc.consts(["round_robin"], N=3, N0=2, weight="W321", win=1, passive=False, mark=False, admin=True, clients=(1,), outcomes=("ok",))),
+            ("admin", pc.consts(["round_robin", "least_connections"], N=3, N0=2, weight="W321", win=1, passive=False, mark=False, admin=True, clients=(1,), outcomes=("ok",))),
         ]
     return [
         ("w321", pc.consts(S3, weight="W321", win=2, passive=True, thr=2, mark=True, outcomes=("ok", "fail"))),
@@ -28,4 +28,4 @@ def sweeps(chk, sd, binp):
 
 
 def run(tier):
-    return pc.run_check("C05", tier, ("C05",), plans(tier), clauses={"NotReadmitted"}, extra=sweeps, guards={"w321"})
+    return pc.run_check("C05", tier, ("C05",), plans(tier), clauses={"NotReadmitted", "RemoveGone", "DispatchToUnknown"}, extra=sweeps, guards={"w321"})
